@@ -24,7 +24,7 @@ def gen_history(rng, ncomp, nops):
     ops = []
     for c in range(rng.randint(2, ncomp)):
         ops.append(("add", c))
-    kinds = ["connect"] * 5 + ["cut"] * 2 + ["remove"] * 1 + ["readd"] * 2 + ["add"] * 2 + ["map"] * 1 + ["raise"] * 3 + ["solve"] * 2 + ["prune"] * 1
+    kinds = ["connect"] * 5 + ["put"] * 2 + ["cut"] * 2 + ["remove"] * 1 + ["readd"] * 2 + ["add"] * 2 + ["map"] * 1 + ["raise"] * 3 + ["solve"] * 2 + ["prune"] * 1
     pairs = []
     for _ in range(nops):
         k = rng.choice(kinds)
@@ -38,7 +38,7 @@ def gen_history(rng, ncomp, nops):
                 a, b = rng.randrange(ncomp), rng.randrange(ncomp)
                 pairs.append((a, b))
             ops.append((k, a, rng.randrange(4), b, rng.randrange(4)))
-        elif k == "map":
+        elif k in ("map", "put"):
             ops.append((k, rng.randrange(ncomp), rng.randrange(3)))
         else:
             ops.append((k,))
@@ -64,6 +64,7 @@ def run_history(ctx, comps, ops, replay, stop_sig=None):
     """executes the applicable ops on the real solver and the reference; reports the first problem.
     returns the signature of the problem found (or None)"""
     L = impl.lk()
+    comps = [dict(c) for c in comps]          # put() appends the components it places
     spec = wiring.Spec(comps)
     real = wiring.Real(comps)
     added_ever = set()
@@ -114,6 +115,27 @@ def run_history(ctx, comps, ops, replay, stop_sig=None):
                 executed.append(("connect", a, p, b, q))
                 real.sol.connect(real.sts[a], p, real.sts[b], q)
                 spec.connect(a, p, b, q)
+            elif k == "put":
+                # a fresh two-port placed with put(): add + connect in one call, onto a free pin of a present structure
+                _, c, i = op
+                if c not in spec.present or i >= len(comps[c]["pins"]) or len(comps) >= 8:
+                    continue
+                p = comps[c]["pins"][i]
+                if (c, p) not in spec.free() or (c, p) in spec.mapping.values():
+                    continue
+                newc = len(comps)
+                import random as _random
+                S2 = gen.contractive(_random.Random(newc * 7919 + i * 31 + len(executed)), 2)
+                comps.append({"pins": [f"u{newc}", f"v{newc}"], "idx": [0, 1], "S": S2})
+                m = L.Model(pin_dic={L.Pin(f"u{newc}"): 0, L.Pin(f"v{newc}"): 1}, Smatrix=gen.mat_np(S2, 2, 2))
+                executed.append(("put", newc, f"u{newc}", c, p))
+                with real.sol:
+                    st = m.put(f"u{newc}", (real.sts[c], p))
+                real.sts.append(st)
+                spec.pins[newc] = [f"u{newc}", f"v{newc}"]
+                spec.add(newc)
+                spec.connect(newc, f"u{newc}", c, p)
+                added_ever.add(newc)
             elif k == "cut":
                 c = op[1]
                 if c not in spec.present:
